@@ -125,7 +125,10 @@ def writer_grammar(F, rep):
     b = F.body(SER + "write_utf8")
     toks = write_tokens(F, b["tir"]["value"]) if b else []
     sname = b["tir"]["params"][1].get("name") if b else None
-    ok = (len(toks) == 3 and toks[0] == ("byte", 0x55) and toks[1][0] == "u8" and toks[1][1].startswith("%s.len()" % sname)
+    lenx = toks[1][1].strip("()") if len(toks) > 1 and len(toks[1]) > 1 and isinstance(toks[1][1], str) else ""
+    if lenx.endswith(" as u8"):
+        lenx = lenx[:-6]     # lossless on the property's domain (strings of at most 255 bytes)
+    ok = (len(toks) == 3 and toks[0] == ("byte", 0x55) and toks[1][0] == "u8" and lenx.startswith("%s.len()" % sname)
           and toks[2] == ("text", sname, "display", True))
     rep.ob("grammar.writer.utf8", ok, SER + "write_utf8", "tokens", "write_utf8 must emit 'U', u8 length of s, the bytes of s; got %s" % (toks,), sample={"tokens": [str(t) for t in toks]})
     b = F.body(SER + "write_map")
@@ -236,9 +239,241 @@ def absence_rule(F, rep):
     rep.ob("absence.slot", ok, peppifmt.READ, "metadata.json", "the metadata slot must take read_peppi_metadata's Option unchanged")
 
 
+# ------------------------------------------------------------------------------------------------ writer acceptance
+# The reader produces only: strings of <= 255 bytes (u8 length), integers that were an i32, nested maps. The writer must
+# accept all of them: every operation in the writer that can reject (Option/Result narrowing consumed by `?`/unwrap, a
+# diverging branch) is enumerated and must be domain-exact, i.e. provably succeed on that domain.
+
+STD_CONSTS = {"i32::MAX": 2**31 - 1, "i32::MIN": -2**31, "u8::MAX": 255, "u8::MIN": 0, "i8::MAX": 127, "i8::MIN": -128, "i16::MAX": 2**15 - 1, "i16::MIN": -2**15,
+              "u16::MAX": 2**16 - 1, "u32::MAX": 2**32 - 1, "i64::MAX": 2**63 - 1, "i64::MIN": -2**63, "u64::MAX": 2**64 - 1, "usize::MAX": 2**64 - 1}
+INT_RANGE = {"i8": (-128, 127), "i16": (-2**15, 2**15 - 1), "i32": (-2**31, 2**31 - 1), "i64": (-2**63, 2**63 - 1), "u8": (0, 255), "u16": (0, 2**16 - 1),
+             "u32": (0, 2**32 - 1), "u64": (0, 2**64 - 1), "usize": (0, 2**64 - 1), "isize": (-2**63, 2**63 - 1)}
+DOMAIN = {"i64": (-2**31, 2**31 - 1, "metadata integers were read as i32"), "i32": (-2**31, 2**31 - 1, "metadata integers were read as i32"),
+          "usize": (0, 255, "string lengths were read from a u8"), "u8": (0, 255, "string lengths were read from a u8")}
+
+import order
+
+
+class DomainEval(order.Evaluator):
+    """E5 evaluator + integer constants (std MIN/MAX, negation, widening casts) and range `contains`"""
+
+    def eval(self, n, env):
+        n0 = strip(n)
+        k = n0.get("k")
+        if k == "Path" and n0.get("res") == "def":
+            tail = "::".join((n0.get("path") or "").split("::")[-2:])
+            for nm, v in STD_CONSTS.items():
+                if (n0.get("path") or "").endswith(nm) or tail.replace("<impl ", "").replace(">", "") == nm:
+                    self.consts_seen.add(v)
+                    return v
+        if k == "Unary" and n0.get("op") == "Neg":
+            v = self.eval(n0["e"], env)
+            if isinstance(v, int) and not isinstance(v, bool):
+                self.consts_seen.add(-v)
+                return -v
+            raise L.Unsupported(n0, "negation of a non-integer")
+        if k == "Unary" and n0.get("op") == "Deref":
+            return self.eval(n0["e"], env)
+        if k == "AddrOf":
+            return self.eval(n0["e"], env)
+        if k == "Cast":
+            v = self.eval(n0["e"], env)
+            r = INT_RANGE.get(n0.get("ty"))
+            if isinstance(v, int) and not isinstance(v, bool) and r and r[0] <= v <= r[1]:
+                return v   # value-preserving cast
+            raise L.Unsupported(n0, "cast that may change the value")
+        if k == "MethodCall" and n0["method"] == "len" and not n0.get("args") and ("len:" + tir.place(n0["recv"])) in env:
+            return env["len:" + tir.place(n0["recv"])]
+        if k == "MethodCall" and n0["method"] == "contains" and (declared(n0) or "").startswith("std::ops::Range"):
+            r = strip(n0["recv"])
+            x = self.eval(n0["args"][0], env)
+            d = declared(r) or r.get("path") or ""
+            if r.get("k") == "Call" and d.endswith("RangeInclusive::<Idx>::new"):
+                lo, hi = self.eval(r["args"][0], env), self.eval(r["args"][1], env)
+                return lo <= x <= hi
+            if r.get("k") == "Struct" and (r.get("path") or "").endswith("ops::Range"):
+                f = {y["name"]: self.eval(y["e"], env) for y in r["fields"]}
+                return f["start"] <= x < f["end"]
+            raise L.Unsupported(n0, "contains on a range that is not a literal range expression")
+        if k == "Binary" and n0.get("op") in ("Add", "Sub") and not n0.get("overloaded"):
+            a, b = self.eval(n0["l"], env), self.eval(n0["r"], env)
+            # arithmetic between constants only (bounds such as i32::MIN as i64 - 0); variables would leave the ordering fragment
+            if not _mentions_local(n0):
+                v = a + b if n0["op"] == "Add" else a - b
+                self.consts_seen.add(v)
+                return v
+        return super().eval(n, env)
+
+
+def _mentions_local(n):
+    return any(x.get("k") == "Path" and x.get("res") == "local" for x in tir.walk(n))
+
+
+def predicate_holds_on_domain(F, param, body, what):
+    """(ok, detail): the closure/condition `body` over one integer local `param` is true on the whole reader domain"""
+    ty = (param.get("ty") or "").lstrip("&")
+    if ty not in DOMAIN:
+        raise L.Unsupported(param, "predicate over a %s (no reader domain known for that type)" % ty)
+    lo, hi, why = DOMAIN[ty]
+    ev = DomainEval(F)
+    ev.eval(body, {param["name"]: lo})     # dry run: collects constants, raises Unsupported outside the fragment
+    pts = set()
+    for c in list(ev.consts_seen) + [lo, hi, 0]:
+        if isinstance(c, int):
+            for d in (-1, 0, 1):
+                if lo <= c + d <= hi:
+                    pts.add(c + d)
+    bad = [v for v in sorted(pts) if not ev.eval(body, {param["name"]: v})]
+    return (not bad), "%s: predicate evaluated on %d order-type representatives of [%d, %d] (%s)%s" % (
+        what, len(pts), lo, hi, why, "; false at %s" % bad[:3] if bad else "")
+
+
+EMIT_PREFIX = ("byteorder::WriteBytesExt::write_", "std::io::Write::write_", "std::io::Write::flush", SER)
+PURE = ("core::str::<impl str>::len", "std::string::String::len", "std::string::String::as_str", "core::str::<impl str>::as_bytes", "std::string::String::as_bytes",
+        "std::ops::Deref::deref", "std::clone::Clone::clone", "std::iter::IntoIterator::into_iter", "serde_json::Map::<K, V>::iter", "serde_json::Map::<std::string::String, serde_json::Value>::iter",
+        "std::convert::AsRef::as_ref", "std::borrow::Borrow::borrow", "std::prelude::v1::Ok", "std::prelude::v1::Some", "serde_json::Map::<std::string::String, serde_json::Value>::len",
+        "std::convert::From::from", "std::convert::Into::into", "std::hint::must_use")
+ERR_ADAPT = ("ok_or", "ok_or_else", "map_err", "unwrap_or_else", "or_else")
+CONSUME = ("unwrap", "expect")
+
+
+def narrowing_class(c):
+    """classify a call by what it can reject: None = cannot reject; ('exact', why) = rejects only outside the reader domain; ('pred', closure); ('unknown', name)"""
+    d = declared(c) or ""
+    ga = c.get("gargs") or []
+    if c.get("k") == "MethodCall" and c["method"] in CONSUME + ERR_ADAPT and ("Option" in d or "Result" in d):
+        return None
+    if any(d.startswith(p) for p in EMIT_PREFIX) or d in PURE or d.startswith("std::fmt::Arguments") or d.startswith("core::fmt::rt::"):
+        return None
+    if d == "serde_json::Number::as_i64":
+        return ("exact", "Number::as_i64 is None only for numbers that are not an i64; the reader builds numbers from an i32")
+    if d in ("std::convert::TryInto::try_into", "std::convert::TryFrom::try_from") and len(ga) >= 2:
+        src, dst = (ga[0], ga[1]) if d.endswith("try_into") else (ga[1], ga[0])
+        if src in DOMAIN and dst in INT_RANGE and INT_RANGE[dst][0] <= DOMAIN[src][0] and DOMAIN[src][1] <= INT_RANGE[dst][1]:
+            return ("exact", "%s -> %s fails only outside [%d, %d]; %s" % (src, dst, INT_RANGE[dst][0], INT_RANGE[dst][1], DOMAIN[src][2]))
+        return ("reject", "conversion %s -> %s fails inside the reader domain [%s, %s]" % (src, dst, DOMAIN.get(src, ("?", "?"))[0], DOMAIN.get(src, ("?", "?"))[1]))
+    if c.get("k") == "MethodCall" and c["method"] in ("filter", "take_if") and "Option" in d:
+        a = strip(c["args"][0])
+        if a.get("k") == "Closure" and len(a["params"]) == 1 and a["params"][0].get("k") == "Bind":
+            return ("pred", a)
+        return ("unknown", d + " with a non-closure predicate")
+    if d.startswith("core::panicking::") or d.startswith("std::rt::begin_panic"):
+        return ("panic", d)
+    if d.endswith("::Err"):
+        return ("err", d)
+    return ("unknown", d)
+
+
+def writer_domain_rule(F, rep):
+    n_exact = n_pred = 0
+    for fn in (SER + "write_utf8", SER + "write_map"):
+        b = F.body(fn)
+        if b is None:
+            continue
+        root = b["tir"]["value"]
+        par = safety_parents(root)
+        skip = set()
+        for n in tir.walk(root):
+            # the closures that only build the error value of an adaptor, and format_args plumbing, cannot change acceptance
+            if n.get("k") == "MethodCall" and n["method"] in ERR_ADAPT:
+                for a in n.get("args", []):
+                    for x in tir.walk(a):
+                        skip.add(id(x))
+            # the error value handed to Err(..), and the body of a predicate closure (evaluated as a whole below)
+            if n.get("k") == "Call" and (declared(n) or "").endswith("::Err"):
+                for a in n.get("args", []):
+                    for x in tir.walk(a):
+                        skip.add(id(x))
+            if n.get("k") == "MethodCall" and (narrowing_class(n) or ("",))[0] == "pred":
+                for x in tir.walk(strip(n["args"][0])["body"]):
+                    skip.add(id(x))
+        for n in tir.walk(root):
+            if id(n) in skip:
+                continue
+            k = n.get("k")
+            if k in ("Call", "MethodCall"):
+                if tir.in_macro(n, "write", "format", "format_args") and not (n.get("k") == "MethodCall" and n["method"] == "write_fmt"):
+                    continue
+                cls = narrowing_class(n)
+                if cls is None:
+                    continue
+                kind, info = cls
+                if kind == "exact":
+                    n_exact += 1
+                    rep.ob("writer.accepts", True, fn, declared(n), sample={"site": tir.sp(n), "why": info})
+                elif kind == "pred":
+                    n_pred += 1
+                    try:
+                        ok, detail = predicate_holds_on_domain(F, info["params"][0], info["body"], "%s(..) at %s" % (n["method"], tir.sp(n)))
+                        rep.ob("writer.accepts", ok, fn, n["method"], "the writer rejects a value the reader produces — " + detail, tir.sp(n), sample={"site": tir.sp(n), "why": detail})
+                        n_exact += 1 if ok else 0
+                    except L.Unsupported as e:
+                        rep.cannot("writer.accepts", fn, e)
+                elif kind == "reject":
+                    rep.ob("writer.accepts", False, fn, declared(n), "the writer rejects a value the reader produces — " + info, tir.sp(n))
+                elif kind in ("panic", "err"):
+                    # a diverging construct: must sit in a match arm / branch that the reader domain never takes
+                    ok, detail = diverging_site_unreachable(F, n, par)
+                    n_exact += 1 if ok else 0
+                    rep.ob("writer.accepts", ok, fn, kind, "the writer fails (%s) on %s" % (info, detail), tir.sp(n), sample={"site": tir.sp(n), "why": detail})
+                else:
+                    rep.cannot("writer.accepts", fn, L.Unsupported(n, "call in the metadata writer whose rejection behaviour is unknown: %s" % info))
+    rep.floor("rejecting steps of the metadata writer decided against the reader domain", n_exact, 3)
+
+
+def safety_parents(root):
+    import safety
+    return safety.parents(root)
+
+
+def diverging_site_unreachable(F, n, par):
+    """a panic/Err construct is acceptable only in a wildcard arm of the match on the value kind that has String, Number and Object arms,
+    or under a branch condition that is false on the reader domain"""
+    a, child = par.get(id(n)), n
+    while a is not None:
+        if a.get("k") == "Match" and "serde_json::Value" in (strip(a["scrut"]).get("ty") or ""):
+            kinds = set()
+            mine = None
+            for arm in a["arms"]:
+                p = arm["pat"]
+                nm = (p.get("path") or "_").split("::")[-1] if p.get("k") in ("TupleStruct", "Path", "Struct") else ("_" if p.get("k") in ("Wild", "Bind") else "?")
+                kinds.add(nm)
+                if any(x is n for x in tir.walk(arm["body"])):
+                    mine = nm
+            if mine == "_" and {"String", "Number", "Object"} <= kinds:
+                return True, "only for value kinds other than String/Number/Object, which the reader never builds"
+            if mine in ("Null", "Bool", "Array"):
+                return True, "only for %s values, which the reader never builds" % mine
+            return False, "a %s value, which the reader does build" % mine
+        if a.get("k") == "If":
+            in_then = any(x is n for x in tir.walk(a["then"]))
+            cond = a["cond"]
+            locs = {}
+            under_len = set()
+            for x in tir.walk(cond):
+                if x.get("k") == "MethodCall" and x["method"] == "len" and not x.get("args") and (declared(x) or "") in PURE:
+                    locs["len:" + tir.place(x["recv"])] = {"ty": "usize"}
+                    under_len.update(id(y) for y in tir.walk(x["recv"]))
+            for x in tir.walk(cond):
+                if x.get("k") == "Path" and x.get("res") == "local" and id(x) not in under_len:
+                    locs[x["name"]] = x
+            if len(locs) == 1:
+                nm, node = next(iter(locs.items()))
+                try:
+                    neg = {"k": "Unary", "op": "Not", "ty": "bool", "e": cond} if in_then else cond
+                    ok, detail = predicate_holds_on_domain(F, {"name": nm, "ty": node.get("ty")}, neg, "branch at %s" % tir.sp(a))
+                    return ok, ("a branch never taken on the reader domain — " if ok else "a branch taken for reader-produced values — ") + detail
+                except L.Unsupported as e:
+                    return False, "a branch whose condition is outside the decidable fragment (%s)" % e
+            return False, "a branch whose condition is outside the decidable fragment"
+        child, a = a, par.get(id(a))
+    return False, "every call (unconditional)"
+
+
 def run(F, rep, tier):
     reader_grammar(F, rep)
     writer_grammar(F, rep)
+    writer_domain_rule(F, rep)
     toplevel_rule(F, rep)
     order_rule(F, rep)
     absence_rule(F, rep)
